@@ -555,6 +555,7 @@ pub fn run_c10(ctx: &Ctx) {
     run_prop(ctx, "builders", shards, per, prog, judge_c10, prog_json);
     // the same programs, several in a row on one thread with related targets
     ctx.append_rule(" Plus program sequences: 4-12 programs run one after another on the same thread whose targets form a target history (2-4 base targets and close relatives: host/path/user-info in the other letter case, partner scheme, user name equal to the host, port or query toggled), each judged as above.");
+    apply_unusual_env(ctx);
     let (shards, per) = ctx.tier.pick((16, 1500), (16, 25000));
     run_prop(
         ctx,
